@@ -50,7 +50,8 @@ Ctxs == {"plain", "tofunc", "pmeth", "tometh", "decl", "pmethTF"}   \* pmethTF: 
 \* elidedTT: []d.TT{{X: n}} - the element literal has no type of its own in the source
 \* callLower:   tfLower(n) - an unexported @testonly function (iff ann.func) declared before TF, used inside its own package
 \* callMpkgvar: `d := d.S{}; d.TM(n)` - the receiver is a local variable that is called like the import
-Uses == {"callF", "callM", "callMvar", "callHM", "litTG", "chainFM", "chainLM", "callPF", "callPM", "shadow", "callFlit", "callLower", "callMpkgvar",
+\* callMparen:  s.TMP(n) - TMP is a @testonly method (iff ann.meth) whose receiver is written with parentheses, func (s (S)) TMP
+Uses == {"callF", "callM", "callMparen", "callMvar", "callHM", "litTG", "chainFM", "chainLM", "callPF", "callPM", "shadow", "callFlit", "callLower", "callMpkgvar",
          "elidedTT", "litTT", "varTT", "varPtrTT", "fieldTT", "paramTT", "resultTT", "litTT2", "litOTT"}
 TypeUses == {"elidedTT", "litTT", "varTT", "varPtrTT", "fieldTT", "paramTT", "resultTT", "litTT2", "litOTT"}
 IsTypeUse(u) == u \in TypeUses \/ u \in {"callFlit", "chainLM"}
@@ -78,7 +79,7 @@ InTestCtx(f, c) == f.test \/ c.ctx \in {"tofunc", "tometh"}
 \* candidate code of a use, before the once-per-file rule
 Cands(c, ann) ==
   (IF c.use \in {"callF", "callFlit", "chainFM", "callLower"} /\ ann.func THEN {"TONL02"} ELSE {})
-  \cup (IF c.use \in {"callM", "callMvar", "callHM", "chainFM", "chainLM", "callMpkgvar"} /\ ann.meth THEN {"TONL03"} ELSE {})
+  \cup (IF c.use \in {"callM", "callMparen", "callMvar", "callHM", "chainFM", "chainLM", "callMpkgvar"} /\ ann.meth THEN {"TONL03"} ELSE {})
   \cup (IF (c.use \in TypeUses \/ c.use \in {"callFlit", "chainLM"}) /\ (ann.type \/ c.use = "litOTT") THEN {"TONL01"} ELSE {})   \* o.TT is always annotated
 
 (***************************************************************************)
@@ -165,6 +166,7 @@ VisitCodes(c) ==
             ELSE IF "ExportedOnly" \in Deviations /\ c.use = "callHM" /\ prog.pkg # "d" THEN {}
             ELSE IF "LocalUnexportedLost" \in Deviations /\ c.use = "callLower" THEN {}
             ELSE IF "QualifierByText" \in Deviations /\ c.use = "callMpkgvar" THEN {}
+            ELSE IF "RecvNameBySyntax" \in Deviations /\ c.use = "callMparen" THEN {}     \* the receiver type is read off the syntax: T and *T only (pinned code, D18)
             ELSE IF "GroupDocLeaks" \in Deviations /\ c.use = "litTG" /\ prog.ann.type THEN {"TONL01"}
             ELSE IF "ElidedSkipped" \in Deviations /\ c.use = "elidedTT" THEN {}
             ELSE Cands(c, prog.ann)
